@@ -607,6 +607,26 @@ impl<'s, T: Kind, N: Unsigned + Send + Sync, U: UpdateMap<T> + PartialEq + Send 
                     Err(_) => "err ssz".to_string(),
                 }
             }
+            "sszmeta" => {
+                // static SSZ metadata of the collection types (Encode and Decode sides)
+                match *w.get(1)? {
+                    "list" => format!(
+                        "ok fixed={} len={} dfixed={} dlen={}",
+                        <List<T, N, U> as Encode>::is_ssz_fixed_len(),
+                        <List<T, N, U> as Encode>::ssz_fixed_len(),
+                        <List<T, N, U> as Decode>::is_ssz_fixed_len(),
+                        <List<T, N, U> as Decode>::ssz_fixed_len()
+                    ),
+                    "vec" => format!(
+                        "ok fixed={} len={} dfixed={} dlen={}",
+                        <Vector<T, N, U> as Encode>::is_ssz_fixed_len(),
+                        <Vector<T, N, U> as Encode>::ssz_fixed_len(),
+                        <Vector<T, N, U> as Decode>::is_ssz_fixed_len(),
+                        <Vector<T, N, U> as Decode>::ssz_fixed_len()
+                    ),
+                    _ => return None,
+                }
+            }
             "unsszprev" => {
                 let h = n(1)?;
                 let bytes = self.last_ssz.clone();
